@@ -94,3 +94,34 @@ func Trunc(s string, n int) string {
 	}
 	return s[:n] + "…"
 }
+
+// SortSets orders every array of scalars inside v: arrays are unordered sets
+// and the engine may reorder them in place (the pattern index sorts arrays).
+func SortSets(v interface{}) interface{} {
+	switch x := v.(type) {
+	case map[string]interface{}:
+		out := map[string]interface{}{}
+		for k, e := range x {
+			out[k] = SortSets(e)
+		}
+		return out
+	case []interface{}:
+		out := make([]interface{}, len(x))
+		scalars := true
+		for i, e := range x {
+			out[i] = SortSets(e)
+			switch e.(type) {
+			case map[string]interface{}, []interface{}:
+				scalars = false
+			}
+		}
+		if scalars {
+			sort.Slice(out, func(i, j int) bool { return Canon(out[i]) < Canon(out[j]) })
+		}
+		return out
+	}
+	return v
+}
+
+// CanonSet is Canon with arrays of scalars treated as sets.
+func CanonSet(v interface{}) string { return Canon(SortSets(Parse(Canon(v)))) }
